@@ -6,6 +6,17 @@ NOTES = ('All checks are ./check <id>; each rebuilds a source-only overlay from 
 NOT_CLAIMED = {}
 
 PROPS = {
+    'C09': {
+        'modules': ['contracts.C09_request_headers'],
+        'level': 'proof',
+        'level_text': 'For every typed request-header accessor (WSGI and ASGI): the exception-escape set is 400-class only, the value specs that are '
+                      'arithmetic/structural (content_length, range forms = the C16 precondition, range_unit, host/port/netloc with default ports, URL '
+                      'composition as concatenation equalities, subdomain, access_route fallback chain, forwarded_*), memoisation (second access returns the '
+                      'first value without re-parsing even after every input changed), case-insensitive lookup; header values are arbitrary symbolic strings.',
+        'level_note': 'The regex/cookie/etag/date/Forwarded grammars are opaque stubs (agreement with an RFC reader only by a labelled bounded differential). '
+                      'int(str) is a predicate/function pair with library-reference axioms. X-Forwarded-For <= 3 addresses, Forwarded <= 2 elements. Recorded known '
+                      'findings: non-numeric port text escapes as ValueError via uri.parse_host; partial access_route cached after a failure; scope client None.',
+    },
     'C11': {
         'modules': ['contracts.C11_negotiation'],
         'level': 'proof',
